@@ -31,7 +31,10 @@ func ChopFile(ctx context.Context, name string, chunks []IndexChunk, ws WriteSto
 		defer f.Close()
 
 		g.Go(func() error {
+			defer verifYield("pl.exit")
+			verifYield("pl.idle")
 			for c := range in {
+				verifYield("pl.job", "id", c.ID, "start", c.Start)
 				// Update progress bar if any
 				pb.Increment()
 
@@ -43,6 +46,7 @@ func ChopFile(ctx context.Context, name string, chunks []IndexChunk, ws WriteSto
 				if err := s.StoreChunk(chunk); err != nil {
 					return err
 				}
+				verifYield("pl.idle")
 			}
 			return nil
 		})
@@ -51,13 +55,16 @@ func ChopFile(ctx context.Context, name string, chunks []IndexChunk, ws WriteSto
 	// Feed the workers, stop if there are any errors
 loop:
 	for _, c := range chunks {
+		verifYield("pl.feed", "id", c.ID, "start", c.Start)
 		select {
 		case <-ctx.Done():
+			verifYield("pl.leave")
 			break loop
 		case in <- c:
 		}
 	}
 
+	verifYield("pl.close")
 	close(in)
 
 	return g.Wait()
